@@ -1,5 +1,6 @@
 import RedisEmu.Exec
 import RedisEmu.Glob
+import RedisEmu.Dict
 /-
   Line-protocol driver: the correspondence harness pipes one request per line and
   reads one answer per line.
@@ -322,6 +323,14 @@ structure DState where
   q : Quirks := Quirks.current
   st : State := State.init
   memo : IdMemo := {}
+  dict : Dict := Dict.empty
+
+def dictLayout (d : Dict) : String :=
+  let occ := (d.buckets.toList.zip (List.range d.buckets.size)).filterMap fun (o, i) =>
+    match o with
+    | some it => some (toString i ++ ":" ++ hexOrDash it.key)
+    | none => none
+  s!"size={d.size} count={d.count} " ++ " ".intercalate occ
 
 def hexArgs (ws : List String) : Option (List Bytes) := ws.mapM fromHex
 
@@ -418,6 +427,30 @@ def step (d : DState) (line : String) : DState × String :=
         | .complete v _ => "ok " ++ toHex (ser (down v))
         | .invalid => "invalid"
         | .crash site => "crash " ++ site)
+    | none => (d, "bad-op")
+  | ["DN"] => ({ d with dict := Dict.empty }, "ok")
+  | ["DS", hex] =>
+    match fromHex hex with
+    | some key =>
+      match d.dict.store key (hash32 key) with
+      | .ok d' => ({ d with dict := d' }, dictLayout d')
+      | .crash => (d, "crash")
+    | none => (d, "bad-op")
+  | ["DR", hex] =>
+    match fromHex hex with
+    | some key =>
+      let (d', r) := d.dict.remove key (hash32 key)
+      ({ d with dict := d' }, (if r then "1 " else "0 ") ++ dictLayout d')
+    | none => (d, "bad-op")
+  | ["DC", cur, cnt] =>
+    match cur.toNat?, cnt.toNat? with
+    | some c, some n =>
+      let (c', ks) := d.dict.scan (fun _ => true) c n
+      (d, toString c' ++ " " ++ " ".intercalate (ks.map hexOrDash))
+    | _, _ => (d, "bad-op")
+  | ["DH", hex] =>
+    match fromHex hex with
+    | some key => (d, toString (sipHash key).toNat)
     | none => (d, "bad-op")
   | ["G", p, cnd] =>
     match fromHex p, fromHex cnd with
